@@ -26,6 +26,9 @@ ASSUMPTIONS = ['KDF outputs for distinct (secret, label, generation) are distinc
 
 def run(ctx):
     P = ctx.P
+    from .repo_lookup import tiered_lookup, unordered_updates_cache
+    ctx.check('TIERED-LOOKUP', 'late messages: the prior epoch served is exactly the one asked for', tiered_lookup('GroupStateRepository::get_epoch_mut'), floor=2)
+    ctx.check('TIERED-LOOKUP', 'the cached prior epochs are searched linearly by equality (the list is not ordered by epoch)', unordered_updates_cache, floor=1)
     ctx.check('EXHAUSTIVE-LOOP', 'every node on the way down to the leaf is consumed', lambda P_: exhaustive_loop(P_, 'SecretTree::take_leaf_ratchet'), floor=1)
     cfg = ctx.config
     ctx.check('WHO-CALLS', 'aead_seal callers',
